@@ -4,7 +4,7 @@
 Require Extraction.
 Require Import ExtrOcamlBasic.
 From Coq Require Import NArith ZArith.
-From WMD Require Import Lib.Str Lib.PyChars Model.ContentType Model.Server Model.Etag Model.Decode.
+From WMD Require Import Lib.Str Lib.PyChars Model.ContentType Model.Server Model.Etag Model.Decode Model.Pool.
 Extraction Language OCaml.
 Extraction "extracted.ml"
   ContentType.is_not_html ContentType.raise_if_not_diffable_html ContentType.ct_error_message
@@ -13,4 +13,5 @@ Extraction "extracted.ml"
   Server.get Server.cors_allow_origin Server.upstream_headers Server.decode_query_params Server.err_status
   Etag.etag_preimage Etag.check_etag_header Etag.etag_of_hash Etag.py_repr_str
   Decode.extract_encoding Decode.decode_body
+  Pool.run Pool.count_submits
   Coq.Init.Nat.add BinInt.Z.add BinNat.N.to_nat.
